@@ -221,7 +221,157 @@ def check_c09(tier):
     return run_e1("C09", tier, stages, dict(undo_probe=True), time_budget=budget(tier, 150, 3000))
 
 
+# ---------------------------------------------------------------------------
+# E2 plumbing
+
+def run_e2(prop, tier, runner, menus, assumptions=None, time_budget=None, keep_props=None, **kwargs):
+    from . import histories
+    t0 = time.time()
+    deadline = t0 + time_budget if time_budget else None
+    cov = {"states": 0, "transitions": 0, "traces_validated_against_impl": 0, "menus": [], "samples": [],
+           "exhaustive": True, "caps": []}
+    vio = []
+    tags = {}
+    for menu, L in menus:
+        print(f"[{prop}] menu {menu['name']}: world {menu['world']}, seed {menu['seed']}, "
+              f"{'full alphabet' if menu.get('full_alphabet') else str(len(menu['items'])) + ' items'}, length <= {L}")
+        r = histories.run_tree(runner, menu, L, deadline=deadline, **kwargs)
+        keep = keep_props or {prop}
+        for v in r["violations"]:
+            v["runner"] = runner
+            v["menu_def"] = {k: (v2 if k != "items" else [events.ev_to_json(e) for e in v2]) for k, v2 in menu.items()}
+            v["L"] = L
+            v["inv_props"] = list(kwargs.get("inv_props", ()))
+        vio.extend(v for v in r["violations"] if v["property"] in keep)
+        # no merging: every sequence is a distinct history (state of the hidden stacks)
+        cov["states"] += r["sequences"]
+        cov["transitions"] += r["calls"]
+        cov["traces_validated_against_impl"] += r["sequences"]
+        cov["menus"].append({"name": menu["name"], "world": menu["world"], "seed": worlds.seed_to_json(menu["seed"]),
+                             "items": None if menu.get("full_alphabet") else [events.ev_to_json(e) for e in menu["items"]],
+                             "length_bound": L, "completed_length": r["completed_length"], "sequences": r["sequences"],
+                             "calls_executed": r["calls"], "pruned_after_violation": r["pruned"], "last_call_outcomes": r["tags"],
+                             "capped": r["capped"], "wall_s": round(r["wall_s"], 2)})
+        for k, n in r["tags"].items():
+            tags[k] = tags.get(k, 0) + n
+        if r["capped"]:
+            cov["exhaustive"] = False
+            cov["caps"].append(f"{menu['name']}: {r['capped']}")
+        cov["samples"].extend(r["samples"][:2])
+    cov["distinct_outcome_tags"] = len(tags)
+    cov["last_call_outcomes"] = tags
+    cov["rule"] = ("all call sequences up to the length bound over each menu, each executed from scratch on a fresh real "
+                   "object in lock step with the reference model; 'states' counts distinct histories (no merging), "
+                   "'transitions' counts calls executed on the implementation")
+
+    def replay_fn(rec):
+        sigs = e2_replay(rec)
+        return sigs if rec["signature"] in sigs else []
+
+    return {"coverage": cov, "violations": vio, "replay_fn": replay_fn,
+            "assumptions": ASSUME_COMMON + (assumptions or [])}
+
+
+def e2_replay(rec):
+    from . import histories
+    menu = dict(rec["menu_def"])
+    menu["seed"] = worlds.seed_from_json(menu["seed"])
+    if menu.get("items"):
+        menu["items"] = [events.ev_from_json(e) for e in menu["items"]]
+    path = [events.ev_from_json(e) for e in rec["history"]] + [events.ev_from_json(rec["event"])]
+    runner = histories.RUNNERS[rec["runner"]]
+    kwargs = {}
+    if rec["runner"] == "C02":
+        kwargs["inv_props"] = tuple(rec.get("inv_props", ()))
+    dead, vio, tag = runner(menu, path, len(path) == rec["L"], **kwargs)
+    return sorted({v["signature"] for v in vio})
+
+
+def generic_replay(rec):
+    if rec.get("engine") == "E2":
+        return e2_replay(rec)
+    if rec.get("engine") == "E3":
+        from . import smallscope
+        return smallscope.replay(rec)
+    raise SystemExit(f"unknown engine {rec.get('engine')}")
+
+
+UNDO, REDO = ("undo",), ("redo",)
+
+# ids in 'given' worlds: segments sorted by smallest node -> 2, 5, 8, ...; lineages 5, 7, ...
+M1 = dict(name="M1-div-given", world="noseg-2d-given", seed="div", items=[
+    ("add_edge", 3, 4, True),                       # forced: nests UserDeleteEdge (2,4)
+    ("add_node", 5, 3, 5, False, "ok", None),       # extends track 5 (nodes 2,4)
+    ("add_node", 6, 1, 2, True, "ok", None),        # forced behind the division of node 1
+    ("del_node", 2),
+    ("del_edge", 1, 3),
+    ("set_attr", 1, "score", 2.5),
+    UNDO, REDO,
+])
+M1B = dict(name="M1b-two", world="noseg-2d", seed="two", items=[
+    ("swap", 2, 4),
+    ("add_edge", 2, 5, False),
+    ("add_edge", 4, 5, True),
+    ("del_node", 2),
+    ("add_node", 6, 2, 2, False, "ok", None),
+    ("set_attr", 5, "score", 7.0),
+    UNDO, REDO,
+])
+M2 = dict(name="M2-seg-div", world="seg-2d", seed="div", items=[
+    ("paint", 2, [[2, 2, 3, 3], [3, 4, 3, 4]], 5, 9, False, "new"),       # new label, new track
+    ("paint", 1, [[0, 0, 1, 1], [1, 2, 1, 2]], 3, 9, False, "over2"),     # 3 swallows node 2
+    ("paint", 2, [[0, 0, 1, 1], [0, 1, 0, 1]], 0, 9, False, "erase4"),    # erase node 4
+    ("paint", 0, [[1], [2]], 0, 9, False, "part1"),                        # shrink node 1
+    ("add_edge", 3, 4, True),
+    ("del_node", 3),
+    UNDO, REDO,
+])
+M3 = dict(name="M3-full-chain", world="noseg-2d", seed="chain", full_alphabet=True,
+          kinds=("del_node", "del_edge", "add_edge", "add_node", "swap"))
+M3S = dict(name="M3-full-seg-chain", world="seg-2d-core", seed="chain", full_alphabet=True,
+           kinds=("del_node", "add_edge", "paint"))
+
+
+def check_c02(tier):
+    q = tier == "quick"
+    menus = [(M1, 5 if q else 7), (M1B, 5 if q else 6), (M2, 4 if q else 6), (M3, 2 if q else 3), (M3S, 2)]
+    return run_e2("C02", tier, "C02", menus, time_budget=budget(tier, 150, 3000),
+                  inv_props=("C03", "C04", "C05", "C06"))
+
+
+ENABLE = lambda *k: ("enable", tuple(k))  # noqa: E731
+DISABLE = lambda *k: ("disable", tuple(k))  # noqa: E731
+
+C10_SEG = dict(name="C10-seg-div", world="seg-2d-core", seed="div", items=[
+    ENABLE("iou"), DISABLE("iou"), ENABLE("area"), DISABLE("area"), ENABLE("circularity", "iou"),
+    ENABLE("nope"), DISABLE("iou", "nope"),
+    ("paint", 0, [[1], [2]], 0, 9, False, "part1"),
+    ("paint", 1, [[0, 0, 1, 1], [1, 2, 1, 2]], 3, 9, False, "over2"),
+    ("del_edge", 1, 3),
+    ("set_attr", 1, "area", 3.0),
+    ("set_attr", 1, "iou", 0.5),
+    UNDO, REDO,
+])
+C10_SEG_FD = dict(C10_SEG, name="C10-seg-div-featuredict", world="seg-2d-fd")
+C10_NOSEG = dict(name="C10-noseg-div", world="noseg-2d", seed="div", items=[
+    ENABLE("lineage_id"), DISABLE("lineage_id"), ENABLE("track_id"), DISABLE("track_id"),
+    ENABLE("area"), DISABLE("nope"),
+    ("del_edge", 1, 3), ("add_edge", 3, 4, True), ("del_node", 2),
+    ("set_attr", 1, "track_id", 7), ("set_attr", 1, "lineage_id", 7), ("set_attr", 1, "time", 2),
+    UNDO, REDO,
+])
+C10_NOSEG_FD = dict(C10_NOSEG, name="C10-noseg-div-featuredict", world="noseg-2d-fd")
+
+
+def check_c10(tier):
+    q = tier == "quick"
+    menus = [(C10_SEG, 3 if q else 4), (C10_SEG_FD, 3 if q else 4), (C10_NOSEG, 4 if q else 5), (C10_NOSEG_FD, 3 if q else 4)]
+    return run_e2("C10", tier, "C10", menus, time_budget=budget(tier, 150, 3000))
+
+
 CHECKS = {
+    "C02": check_c02,
+    "C10": check_c10,
     "C07": check_c07,
     "C08": check_c08,
     "C09": check_c09,
